@@ -11,6 +11,9 @@ TRUSTED = [
     "OS file semantics modelled by os_write/os_truncate (seek+write overwrites in place, truncate cuts at the cursor)",
     "thrift content of the footer is opaque here (C10); the harness computes the expected new footer with the library's own from_buffer/update_custom_metadata/to_bytes",
     "Python glue: generators, byte comparison, dict comparison via ensure_bytes",
+    "translator kv2coq (Python ast of util.update_custom_metadata -> Gallina) and its prelude Impl/PyList.v (x in l, l.index, del l[i], l[i] = y, append)",
+    "foreign footers are produced by the proved specification reader/writer (thrift_dec / thrift_enc of C10) and spliced by harness glue",
+    "utf8_valid (Impl/KVRead.v) is the transcription of Unicode table 3-7; compared with CPython's decoder on every read check",
 ]
 
 
@@ -25,8 +28,9 @@ def _kv_vals(rng, big=False):
     v = "".join(rng.choice("abcxyzé ") for _ in range(n))
     if rng.random() < 0.3:
         v = v.encode("utf-8")
-    if rng.random() < 0.05:
-        v = bytes(rng.randrange(256) for _ in range(n))
+    if rng.random() < 0.15:
+        # binary payload (digest, compressed blob): not UTF-8
+        v = bytes(rng.randrange(256) for _ in range(n)) + rng.choice([b"\xff", b"\xc3", b"\xed\xa0\x80", b"\xf5\x80\x80\x80", b"\xc0\xaf"])
     return k, v
 
 
@@ -47,40 +51,150 @@ def spec_update(d, u):
 
 
 DUPKEY = b"dup-hist"
+NONUTF8 = [b"\xff\xfe", b"\xc3", b"\xc0\xaf", b"\xed\xa0\x80", b"\xf4\x90\x80\x80", b"\xe2\x82", b"\x80abc", b"\xf8\x88\x80\x80\x80"]
 
 
-def inject_duplicates(path, is_md, rng, fixed=None):
-    """rewrite the footer by hand with 2-3 entries under one key appended (what a foreign writer may produce);
-    returns {"vals": [hex], "pos": ...} so that a replay can repeat it (pass it back as `fixed`)"""
-    from fastparquet.cencoding import from_buffer
-    from fastparquet import parquet_thrift
-    b = open(path, "rb").read()
-    loc = 4 if is_md else len(b) - 8 - int.from_bytes(b[-8:-4], "little")
-    fmd = from_buffer(b[loc:], "FileMetaData")
-    kvs = list(fmd.key_value_metadata or [])
-    if fixed:
-        vals, pos = [bytes.fromhex(v) for v in fixed["vals"]], fixed["pos"]
-    else:
+def gen_foreign(rng):
+    """entries another (conformant) writer may leave in list<KeyValue>: the SAME key several times, a KeyValue WITHOUT value
+    (value is optional in the IDL), empty values, binary (non-UTF-8) keys and values in every combination with text.
+    -> [[key hex, value hex | None, where]]"""
+    out = []
+    if rng.random() < 0.4:
         vals = [b"step-1", b"", b"step-3 " + bytes(rng.randrange(97, 123) for _ in range(rng.choice([0, 5, 30])))][:rng.choice([2, 3])]
         pos = rng.choice(["end", "spread"])
-    new = [parquet_thrift.KeyValue(key=DUPKEY, value=v) for v in vals]
-    if pos == "end" or not kvs:
-        kvs = kvs + new
-    else:
-        kvs = [new[0]] + kvs + new[1:]
-    fmd.key_value_metadata = kvs
-    foot = bytes(fmd.to_bytes())
+        for i, v in enumerate(vals):
+            out.append([DUPKEY.hex(), v.hex(), "front" if (pos == "spread" and i == 0) else "end"])
+    if rng.random() < 0.65:
+        for k in rng.sample([b"flag", "drapeau-\u00e9".encode("utf-8"), b"novalue", b"\xfe\xffbinflag"], rng.choice([1, 1, 2])):
+            out.append([k.hex(), None, rng.choice(["front", "mid", "end"])])
+    if rng.random() < 0.5:
+        out.append([rng.choice([b"sha256", "empreinte-\u00e9".encode("utf-8"), b"blob"]).hex(),
+                    (bytes(rng.randrange(256) for _ in range(rng.choice([0, 3, 32]))) + rng.choice(NONUTF8)).hex(), rng.choice(["front", "mid", "end"])])
+    if rng.random() < 0.3:
+        out.append([(rng.choice(NONUTF8) + b"key").hex(), "text value \u00e9".encode("utf-8").hex(), rng.choice(["front", "end"])])
+    if rng.random() < 0.2:
+        out.append([(b"bb" + rng.choice(NONUTF8)).hex(), (rng.choice(NONUTF8) * 3).hex(), "mid"])
+    if rng.random() < 0.3:
+        out.append([b"empty".hex(), "", "end"])
+    if not out:
+        out.append([b"flag".hex(), None, "end"])
+    return out
+
+
+def inject_foreign(pq, path, recipe):
+    """parse the footer with the proved specification reader, insert the entries, re-encode with the proved specification
+    writer, splice back (data file or _metadata: both end with footer + length + magic)"""
+    from harness import c10_edits as E
+    data = open(path, "rb").read()
+    head, footer = E.split_footer(data, False)
+    r = pq.call("thrift_dec", 1, footer)
+    assert sym(r[0]) == "ok" and r[2] == 0, r[:1]
+    t = E.dec(r[1])
+    E.type_empty_lists(t)
+    kvl = E.get(t, 5)
+    items = list(kvl[2]) if kvl else []
+    for kh, vh, where in recipe:
+        e = E.R(f1=E.S(bytes.fromhex(kh))) if vh is None else E.R(f1=E.S(bytes.fromhex(kh)), f2=E.S(bytes.fromhex(vh)))
+        items.insert({"front": 0, "mid": len(items) // 2, "end": len(items)}[where], e)
+    E.put(t, 5, ["l", 12, items])
+    r = pq.call("thrift_enc", t)
+    assert sym(r[0]) == "ok", r
+    foot = bytes(r[1])
     with open(path, "wb") as f:
-        f.write(b[:loc] + foot + struct.pack("<I", len(foot)) + b"PAR1")
-    return {"vals": [v.hex() for v in vals], "pos": pos}
+        f.write(head + foot + struct.pack("<I", len(foot)) + b"PAR1")
+
+
+def sym(x):
+    return x.decode("latin-1") if isinstance(x, (bytes, bytearray)) else x
+
+
+def py_canon(x):
+    """the property's reading of 'returned verbatim' on the read side: text comes back as text, binary as the bytes given -
+    decided for key and value each on its own, with Python's own decoder (independent of fastparquet.util.ensure_str)"""
+    if x is None or isinstance(x, str):
+        return x
+    try:
+        return bytes(x).decode("utf-8")
+    except UnicodeDecodeError:
+        return bytes(x)
+
+
+def view_of(d):
+    """type-strict, JSON-able rendering of a key_value_metadata mapping, insertion order"""
+    def one(x):
+        if x is None:
+            return None
+        if isinstance(x, str):
+            return ["str", x.encode("utf-8", "surrogatepass").hex()]
+        if isinstance(x, (bytes, bytearray)):
+            return ["bytes", bytes(x).hex()]
+        return [type(x).__name__, repr(x)]
+    return [[one(k), one(v)] for k, v in d.items()]
+
+
+def model_view(mo):
+    """pqref kv_read output -> the same rendering"""
+    def one(x):
+        return ["bytes" if x[0] else "str", bytes(x[1]).hex()]
+    return [[one(k), (one(v[0]) if v else None)] for k, v in mo]
+
+
+def raw_sx(raw):
+    return [[k, [] if v is None else [v]] for k, v in raw]
+
+
+def u_sx(u):
+    def ps(x):
+        return [0 if isinstance(x, str) else 1, eb(x)]
+    return [[ps(k), [] if v is None else [ps(v)]] for k, v in u.items()]
+
+
+def read_checks(ctx, pq, pf, raw, case, where):
+    """READ side: (a) model read_kvm ~ ParquetFile.key_value_metadata (type-strict, insertion order);
+    (b) oracle: every footer entry comes back under its own key, key and value each text iff it decodes"""
+    try:
+        kvm_view = dict(pf.key_value_metadata)
+    except Exception as e:      # noqa
+        ctx.fail({"component": "key_value_metadata", "op": "read", "where": where, "what": "raised"}, case,
+                 "reading key_value_metadata raised %s: %s (entries %r)" % (type(e).__name__, e, _trim_list(raw)))
+        return False
+    got = view_of(kvm_view)
+    mo = pq.call("kv_read", raw_sx(raw))
+    cc = {"where": where, "raw": [[k.hex(), None if v is None else v.hex()[:80]] for k, v in raw][:20]}
+    ctx.correspondence("read_kvm ~ ParquetFile.key_value_metadata (types and order)", cc, model_view(mo), got)
+    keys = [k for k, _ in raw]
+    rep_keys = set(py_canon(k) for k in keys if keys.count(k) > 1)      # which entry of a REPEATED key shows is not the property's subject
+    want = {}
+    for k, v in raw:
+        want[py_canon(k)] = py_canon(v)
+    want = {k: v for k, v in want.items() if k not in rep_keys}
+    got = view_of({k: v for k, v in kvm_view.items() if k not in rep_keys})
+    if view_of(want) != got:
+        bad = [e for e in got if e not in view_of(want)][:3]
+        ctx.fail({"component": "key_value_metadata", "op": "read", "where": where}, case,
+                 "key_value_metadata does not return the stored entries verbatim (text as str, binary as bytes, key and value "
+                 "independently): unexpected %r; expected %r" % (bad, [e for e in view_of(want) if e not in got][:3]))
+        return False
+    return True
 
 
 def _trim_list(l):
-    return [(k[:20], v[:20]) for k, v in l][:12]
+    return [(k[:20], None if v is None else v[:20]) for k, v in l][:12]
 
 
 def kv_of(fmd):
     return [(eb(x.key), eb(x.value)) for x in (fmd.key_value_metadata or [])]
+
+
+def translate_kv(ctx):
+    """regenerated-text obligations of C16 (each translator fails closed on its own):
+    kv2coq      util.update_custom_metadata  -> GenKV.v, coq/genproofs/GenKVProofs.v (loop = faithful step; WHOLE function = update_kvo)
+    fileops2coq writer.update_file_custom_metadata -> GenUpdateFile.v, GenUpdateFileProofs.v (= rewrite_footer true at footer_loc)"""
+    from harness import gentr
+    fp = os.path.join(C.REPO, "fastparquet")
+    gentr.run_translator(ctx, "kv2coq", ["kv2coq.py", os.path.join(fp, "util.py")], "GenKV.v", "GenKVProofs.v", "util.update_custom_metadata")
+    gentr.run_translator(ctx, "fileops2coq_update_file", ["fileops2coq.py", "update_file", os.path.join(fp, "writer.py")],
+                         "GenUpdateFile.v", "GenUpdateFileProofs.v", "writer.update_file_custom_metadata")
 
 
 def run(ctx):
@@ -89,6 +203,7 @@ def run(ctx):
     ok, out = ctx.coq_file(os.path.join(C.COQ, "props", "C16.v"))
     bad = C.hygiene()
     ctx.obligation("hygiene: no Admitted/Axiom/Parameter/... in coq/", not bad, "; ".join(bad))
+    translate_kv(ctx)
     C.use_shadow()
     pq = C.Pqref()
     import numpy as np
@@ -106,6 +221,33 @@ def run(ctx):
                 "distinct = distinct (kind, initial dict, update list) tuples")
     n_hist = 60 if ctx.quick() else 700
     deltas_seen = set()
+
+    # ---- correspondence U: utf8_valid (Unicode table 3-7, Impl/KVRead.v) vs CPython's strict decoder, boundary lattice -----
+    leads = [0x00, 0x41, 0x7f, 0x80, 0xbf, 0xc0, 0xc1, 0xc2, 0xdf, 0xe0, 0xe1, 0xec, 0xed, 0xee, 0xef, 0xf0, 0xf1, 0xf3, 0xf4, 0xf5, 0xff]
+    seconds = [0x7f, 0x80, 0x8f, 0x90, 0x9f, 0xa0, 0xbf, 0xc0]
+    thirds = [0x7f, 0x80, 0xbf, 0xc0]
+    lat = [b""]
+    for a in leads:
+        lat.append(bytes([a]))
+        for b2 in seconds:
+            lat.append(bytes([a, b2]))
+            for c in thirds:
+                lat.append(bytes([a, b2, c]))
+                for d in (0x80, 0xbf, 0x41):
+                    lat.append(bytes([a, b2, c, d]))
+    lat = lat + [x + b"a" for x in lat[::3]] + [b"ok \xc3\xa9 " + x for x in lat[::5]]
+    if ctx.quick():
+        lat = lat[::2] + lat[1::7]
+    lat += [bytes(rng.randrange(256) for _ in range(rng.choice([1, 2, 3, 4, 6]))) for _ in range(200)]
+    outs = pq.batch([("utf8_valid", x) for x in lat])
+    for x, mo in zip(lat, outs):
+        try:
+            x.decode("utf-8")
+            py = 1
+        except UnicodeDecodeError:
+            py = 0
+        ctx.correspondence("utf8_valid ~ CPython bytes.decode('utf-8') succeeds", {"bytes": x.hex()}, mo, py)
+    ctx.count("utf8_lattice_cases", len(lat))
 
     # ---- correspondence A: update_kv model vs util.update_custom_metadata ---------------------
     n_a = 300 if ctx.quick() else 3000
@@ -134,14 +276,22 @@ def run(ctx):
             u[k] = None if rng.random() < 0.35 else v
         fmd = parquet_thrift.FileMetaData(
             key_value_metadata=[parquet_thrift.KeyValue(key=k, value=v) for k, v in old] if (old or rng.random() < 0.5) else None)
-        update_custom_metadata(fmd, u)
-        impl = [[k, v] for k, v in kv_of(fmd)]
+        raised = None
+        try:
+            update_custom_metadata(fmd, u)
+            impl = [[k, v] for k, v in kv_of(fmd)]
+        except Exception as e:       # noqa  (a legal update must not raise: reported below with the concrete case)
+            raised = "%s: %s" % (type(e).__name__, e)
+            impl = [[b"<raised>", raised.encode()]]
         cmds.append(("update_kv", [[k, v] for k, v in old], [[eb(k), [] if v is None else [eb(v)]] for k, v in u.items()]))
         metas.append(({"old": [[k.hex(), v.hex()] for k, v in old],
                        "update": [[eb(k).hex(), None if v is None else eb(v).hex()] for k, v in u.items()]}, impl, len(u) == 0))
     outs = pq.batch(cmds)
     for (case, impl, triv), mo in zip(metas, outs):
         ctx.case({"corr": "update_kv", **case}, trivial=triv)
+        if impl and impl[0][0] == b"<raised>":
+            ctx.fail({"component": "update_custom_metadata", "op": "update_kv", "what": "raised"}, case,
+                     "update_custom_metadata raised on a legal update: %s" % impl[0][1].decode("utf-8", "replace"))
         ctx.count("update_kv.nupdates", len(case["update"]))
         agree = ctx.correspondence("update_kv ~ util.update_custom_metadata", case, [[a.hex(), b.hex()] for a, b in mo],
                                    [[a.hex(), b.hex()] for a, b in impl])
@@ -157,195 +307,246 @@ def run(ctx):
 
     # ---- correspondence B + oracle: histories on real files ----------------------------------
     for h in range(n_hist):
-        kind = rng.choice(["data", "data", "data2", "_metadata"])
-        d0 = {}
-        for _ in range(rng.choice([0, 1, 2, 3])):
-            k, v = _kv_vals(rng, big=(rng.random() < 0.03))
-            if any(eb(k) == eb(k2) for k2 in d0):
-                continue
-            d0[k] = v
-        nrows = rng.choice([1, 5, 50])
-        df = pd.DataFrame({"x": np.arange(nrows, dtype="int64"), "s": ["r%d" % i for i in range(nrows)]})
-        root = os.path.join(ctx.scratch, "h%d" % h)
-        if kind == "_metadata":
-            write(root, df, file_scheme="hive", custom_metadata=dict(d0) or None, row_group_offsets=[0, nrows // 2] if nrows > 1 else None)
-            path = os.path.join(root, "_metadata")
-        else:
-            path = root + ".parquet"
-            write(path, df, custom_metadata=dict(d0) or None,
-                  row_group_offsets=[0, nrows // 2] if (kind == "data2" and nrows > 1) else None)
-        case = {"kind": kind, "nrows": nrows, "initial": [[repr(k), repr(v)[:60], len(v)] for k, v in d0.items()], "updates": [],
-                "replay_data": {"kind": kind, "nrows": nrows, "rg2": kind in ("data2", "_metadata"), "initial": enc_dict(d0), "updates": []}}
-        pf = ParquetFile(path)
-        cur = {eb(k): eb(v) for k, v in pf.key_value_metadata.items()}
-        # write-time verbatim: every given entry is there, next to the library's own 'pandas' entry
-        want0 = {eb(k): eb(v) for k, v in d0.items()}
-        if {k: v for k, v in cur.items() if k != b"pandas"} != want0:
-            ctx.fail({"component": "write", "op": "custom_metadata"}, case, "custom_metadata not returned verbatim: %r vs %r" % (cur, want0))
-        # a footer as another writer may leave it: the SAME key several times in the list<KeyValue> (legal in the IDL);
-        # the updates below never name that key, so every one of its entries must survive, in order
-        dup = rng.random() < 0.3
-        if dup:
-            case["replay_data"]["dup"] = inject_duplicates(path, kind == "_metadata", rng)
+        case = {"history": h}
+        try:
+            kind = rng.choice(["data", "data", "data2", "_metadata"])
+            d0 = {}
+            for _ in range(rng.choice([0, 1, 2, 3])):
+                k, v = _kv_vals(rng, big=(rng.random() < 0.03))
+                if any(eb(k) == eb(k2) for k2 in d0):
+                    continue
+                d0[k] = v
+            nrows = rng.choice([1, 5, 50])
+            df = pd.DataFrame({"x": np.arange(nrows, dtype="int64"), "s": ["r%d" % i for i in range(nrows)]})
+            root = os.path.join(ctx.scratch, "h%d" % h)
+            if kind == "_metadata":
+                write(root, df, file_scheme="hive", custom_metadata=dict(d0) or None, row_group_offsets=[0, nrows // 2] if nrows > 1 else None)
+                path = os.path.join(root, "_metadata")
+            else:
+                path = root + ".parquet"
+                write(path, df, custom_metadata=dict(d0) or None,
+                      row_group_offsets=[0, nrows // 2] if (kind == "data2" and nrows > 1) else None)
+            case = {"kind": kind, "nrows": nrows, "initial": [[repr(k), repr(v)[:60], len(v)] for k, v in d0.items()], "updates": [],
+                    "replay_data": {"kind": kind, "nrows": nrows, "rg2": kind in ("data2", "_metadata"), "initial": enc_dict(d0), "updates": []}}
             pf = ParquetFile(path)
-            cur = {eb(k): eb(v) for k, v in pf.key_value_metadata.items()}
-            case["duplicate_entries"] = [[k.hex(), v.hex()] for k, v in kv_of(pf.fmd) if k == DUPKEY]
-        ctx.count("footer_has_duplicate_key", dup)
-        schema0, rgs0 = pf.fmd.schema, pf.fmd.row_groups
-        df0 = ParquetFile(root if kind == "_metadata" else path).to_pandas()
-        nupd = rng.choice([1, 2, 3, 5])
-        trivial_hist = True
-        for step in range(nupd):
-            before = open(path, "rb").read()
-            keys_now = [k for k in cur if k != b"pandas" and k != DUPKEY]
-            raw_before = kv_of(ParquetFile(path).fmd)
-            u = {}
-            # choose the update so that footer deltas of every small size occur
-            mode = rng.choice(["shrink", "grow", "mixed", "remove", "same", "empty"] if step else ["grow", "mixed", "shrink"])
-            if mode == "empty":
-                pass
-            elif mode in ("shrink", "grow", "same") and keys_now:
-                k = rng.choice(keys_now)
-                old_v = cur[k]
-                dl = rng.choice(list(range(1, 10)) + [12, 16, 17, 33, 40])
-                if mode == "shrink":
-                    nv = old_v[:max(0, len(old_v) - dl)]
-                elif mode == "grow":
-                    nv = old_v + b"z" * dl
+            raw0 = kv_of(pf.fmd)
+            cur = dict(raw0)
+            # write-time verbatim: every given entry is there, next to the library's own 'pandas' entry ...
+            want0 = {eb(k): eb(v) for k, v in d0.items()}
+            if {k: v for k, v in cur.items() if k != b"pandas"} != want0:
+                ctx.fail({"component": "write", "op": "custom_metadata"}, case, "custom_metadata not returned verbatim: %r vs %r" % (cur, want0))
+            # ... and is handed out with the right types (READ side)
+            read_checks(ctx, pq, pf, raw0, case, "after write")
+            # a footer as another writer may leave it (legal in the IDL): the SAME key several times, KeyValue entries WITHOUT
+            # value, binary keys / values in every combination with text.  Updates never name the repeated key, so every one of
+            # its entries must survive, in order; value-less and binary entries ARE named by updates (removal, replacement)
+            foreign = gen_foreign(rng) if rng.random() < 0.75 else None
+            if foreign:
+                case["replay_data"]["foreign"] = foreign
+                case["foreign_entries"] = foreign
+                inject_foreign(pq, path, foreign)
+                pf = ParquetFile(path)
+                raw0 = kv_of(pf.fmd)
+                cur = dict(raw0)
+                read_checks(ctx, pq, pf, raw0, case, "foreign footer")
+            ctx.count("footer_has_duplicate_key", bool(foreign) and any(e[0] == DUPKEY.hex() for e in foreign))
+            ctx.count("footer_has_valueless_entry", bool(foreign) and any(e[1] is None for e in foreign))
+            ctx.count("footer_foreign_entries", len(foreign or []))
+            schema0, rgs0 = pf.fmd.schema, pf.fmd.row_groups
+            df0 = ParquetFile(root if kind == "_metadata" else path).to_pandas()
+            nupd = rng.choice([1, 2, 3, 5])
+            trivial_hist = True
+            for step in range(nupd):
+                before = open(path, "rb").read()
+                keys_now = [k for k in cur if k != b"pandas" and k != DUPKEY]
+                raw_before = kv_of(ParquetFile(path).fmd)
+                u = {}
+                # choose the update so that footer deltas of every small size occur
+                mode = rng.choice(["shrink", "grow", "mixed", "remove", "same", "empty"] if step else ["grow", "mixed", "shrink"])
+                valueless = [k for k in keys_now if cur[k] is None]
+                if valueless and rng.random() < 0.5:
+                    mode = rng.choice(["remove-valueless", "remove-valueless", "set-valueless"])
+                ctx.count("update_mode", mode)
+                if mode == "empty":
+                    pass
+                elif mode == "remove-valueless":
+                    # ONLY removals of entries that have no value (and of absent keys): the footer must lose exactly these
+                    for k in rng.sample(valueless, rng.choice([1, len(valueless)])):
+                        u[_maybe_str(k) if rng.random() < 0.5 else k] = None
+                    if rng.random() < 0.3:
+                        u["absent-key"] = None
+                elif mode == "set-valueless":
+                    k = rng.choice(valueless)
+                    u[_maybe_str(k) if rng.random() < 0.5 else k] = rng.choice(["now set", b"", b"\xff\x00bin", "v" * 17])
+                elif mode in ("shrink", "grow", "same") and keys_now:
+                    k = rng.choice(keys_now)
+                    old_v = cur[k] or b""
+                    dl = rng.choice(list(range(1, 10)) + [12, 16, 17, 33, 40])
+                    if mode == "shrink":
+                        nv = old_v[:max(0, len(old_v) - dl)]
+                    elif mode == "grow":
+                        nv = old_v + b"z" * dl
+                    else:
+                        nv = bytes(reversed(old_v))
+                    try:
+                        ks = k.decode("utf-8") if rng.random() < 0.5 else k
+                    except UnicodeDecodeError:
+                        ks = k
+                    u[ks] = nv if rng.random() < 0.5 else _maybe_str(nv)
+                elif mode == "remove" and keys_now:
+                    for k in rng.sample(keys_now, rng.choice([1, len(keys_now)])):
+                        u[k] = None
+                    if rng.random() < 0.3:
+                        u["absent-key"] = None
                 else:
-                    nv = bytes(reversed(old_v))
-                try:
-                    ks = k.decode("utf-8") if rng.random() < 0.5 else k
-                except UnicodeDecodeError:
-                    ks = k
-                u[ks] = nv if rng.random() < 0.5 else _maybe_str(nv)
-            elif mode == "remove" and keys_now:
-                for k in rng.sample(keys_now, rng.choice([1, len(keys_now)])):
-                    u[k] = None
-                if rng.random() < 0.3:
-                    u["absent-key"] = None
-            else:
-                for _ in range(rng.choice([1, 2, 3])):
-                    k, v = _kv_vals(rng)
-                    if any(eb(k) == eb(k2) for k2 in u):
-                        continue
-                    u[k] = None if rng.random() < 0.25 else v
-            if u:
-                trivial_hist = False
-            is_md = (kind == "_metadata")
-            if rng.random() < 0.12:
-                # an update the library must refuse (value / key of a type that cannot be stored): it has to raise and
-                # leave a valid file with the previous content (the property holds for ANY sequence of updates)
-                bad = dict(u)
-                which = rng.choice(["int-value", "list-value", "int-key", "float-value"])
-                if which == "int-key":
-                    bad[7] = "x"
+                    for _ in range(rng.choice([1, 2, 3])):
+                        k, v = _kv_vals(rng)
+                        if any(eb(k) == eb(k2) for k2 in u):
+                            continue
+                        u[k] = None if rng.random() < 0.25 else v
+                if u:
+                    trivial_hist = False
+                is_md = (kind == "_metadata")
+                if rng.random() < 0.12:
+                    # an update the library must refuse (value / key of a type that cannot be stored): it has to raise and
+                    # leave a valid file with the previous content (the property holds for ANY sequence of updates)
+                    bad = dict(u)
+                    which = rng.choice(["int-value", "list-value", "int-key", "float-value"])
+                    if which == "int-key":
+                        bad[7] = "x"
+                    else:
+                        bad[rng.choice(["rev", "a", "zz-new"])] = {"int-value": 7, "list-value": ["a"], "float-value": 1.5}[which]
+                    ctx.count("rejected_update", which)
+                    case["updates"].append([["<rejected: %s>" % which, None]])
+                    case["replay_data"]["updates"].append({"rejected": which, "u": enc_dict(u)})
+                    raised = None
+                    try:
+                        update_file_custom_metadata(path, bad)
+                    except Exception as e:       # noqa
+                        raised = type(e).__name__
+                    after = open(path, "rb").read()
+                    problems = []
+                    if raised is None:
+                        problems.append("an update with a %s was accepted" % which)
+                    try:
+                        pf2 = ParquetFile(path)
+                        got = dict(kv_of(pf2.fmd))
+                        if got != cur:
+                            problems.append("key-values after a REFUSED update %r, expected the previous %r" % (_trim(got), _trim(cur)))
+                        if not (pf2.fmd.schema == schema0) or not (pf2.fmd.row_groups == rgs0):
+                            problems.append("schema / row groups changed by a refused update")
+                        if not ParquetFile(root if is_md else path).to_pandas().equals(df0):
+                            problems.append("data read back differs after a refused update")
+                    except Exception as e:      # noqa
+                        problems.append("file unreadable after a refused update (%d -> %d bytes): %s: %s" % (len(before), len(after), type(e).__name__, e))
+                    if after[-4:] != b"PAR1":
+                        problems.append("file does not end with the magic after a refused update")
+                    if problems:
+                        ctx.fail({"component": "update_file_custom_metadata", "op": "refused-update", "file_kind": kind, "what": which},
+                                 {**case, "failing_step": step}, "; ".join(problems))
+                        break
+                    continue
+                # model inputs: where the footer is, and what the new footer bytes are (library's own serialiser)
+                if is_md:
+                    loc = 4
                 else:
-                    bad[rng.choice(["rev", "a", "zz-new"])] = {"int-value": 7, "list-value": ["a"], "float-value": 1.5}[which]
-                ctx.count("rejected_update", which)
-                case["updates"].append([["<rejected: %s>" % which, None]])
-                case["replay_data"]["updates"].append({"rejected": which, "u": enc_dict(u)})
-                raised = None
+                    size = int.from_bytes(before[-8:-4], "little")
+                    loc = len(before) - 8 - size
+                # the footer the update has to leave: the entry list computed by the MODEL (update_kvo on the raw entries, values
+                # possibly absent), serialised by the library's own serialiser (thrift content is C10's subject)
+                mo = pq.call("update_kvo", raw_sx(raw_before), u_sx(u))
+                model_kv = [(bytes(k), bytes(v[0]) if v else None) for k, v in mo]
+                fmd = from_buffer(before[loc:], "FileMetaData")
+                fmd.key_value_metadata = [parquet_thrift.KeyValue(key=k, value=v) if v is not None else parquet_thrift.KeyValue(key=k)
+                                          for k, v in model_kv]
+                new_footer = bytes(fmd.to_bytes())
+                old_footer_len = len(before) - 8 - loc
+                delta = len(new_footer) - old_footer_len
+                deltas_seen.add(delta)
+                ctx.count("footer_delta_class", "0" if delta == 0 else ("-1..-7" if -8 < delta < 0 else ("<=-8" if delta <= -8 else ("+1..+7" if delta < 8 else ">=8"))))
+                ctx.count("file_kind", kind)
+                case["updates"].append([[repr(k), None if v is None else len(v)] for k, v in u.items()] + [{"footer_delta": delta}])
+                case["replay_data"]["updates"].append(enc_dict(u))
+                err = None
                 try:
-                    update_file_custom_metadata(path, bad)
-                except Exception as e:       # noqa
-                    raised = type(e).__name__
+                    update_file_custom_metadata(path, dict(u))
+                except Exception as e:           # noqa
+                    err = "%s: %s" % (type(e).__name__, e)
                 after = open(path, "rb").read()
+                m_loc = pq.call("footer_loc", is_md, before)
+                m_after = pq.call("rewrite_footer", 1, before, loc, new_footer)
+                cc = {"kind": kind, "step": step, "delta": delta, "before_len": len(before), "loc": loc,
+                      "update": case["updates"][-1]}
+                ctx.correspondence("footer_loc ~ where update_file_custom_metadata finds the footer", cc, m_loc, [loc])
+                ctx.correspondence("rewrite_footer(truncate) ~ bytes left by update_file_custom_metadata", cc,
+                                   sha_len(m_after), sha_len(after))
+                # ---- the property itself on this step
+                cls = {"component": "update_file_custom_metadata", "op": "update_kv", "file_kind": kind,
+                       "footer_delta": delta}
+                want = spec_update(cur, u)
                 problems = []
-                if raised is None:
-                    problems.append("an update with a %s was accepted" % which)
-                try:
-                    pf2 = ParquetFile(path)
-                    got = {eb(k): eb(v) for k, v in pf2.key_value_metadata.items()}
-                    if got != cur:
-                        problems.append("key-values after a REFUSED update %r, expected the previous %r" % (_trim(got), _trim(cur)))
-                    if not (pf2.fmd.schema == schema0) or not (pf2.fmd.row_groups == rgs0):
-                        problems.append("schema / row groups changed by a refused update")
-                    if not ParquetFile(root if is_md else path).to_pandas().equals(df0):
-                        problems.append("data read back differs after a refused update")
-                except Exception as e:      # noqa
-                    problems.append("file unreadable after a refused update (%d -> %d bytes): %s: %s" % (len(before), len(after), type(e).__name__, e))
+                if err:
+                    problems.append("update raised " + err)
+                if after[:loc] != before[:loc]:
+                    problems.append("bytes before the footer changed")
                 if after[-4:] != b"PAR1":
-                    problems.append("file does not end with the magic after a refused update")
+                    problems.append("file does not end with the magic")
+                else:
+                    sz = int.from_bytes(after[-8:-4], "little")
+                    if (4 if is_md else len(after) - 8 - sz) != loc:
+                        problems.append("footer length field %d does not lead back to the footer start (file %d bytes, footer at %d)" % (sz, len(after), loc))
+                if not problems:
+                    try:
+                        pf2 = ParquetFile(path)
+                        raw_after = kv_of(pf2.fmd)
+                        got = dict(raw_after)
+                        if got != want:
+                            problems.append("key-values after update %r, expected %r" % (_trim(got), _trim(want)))
+                        named = set(eb(k) for k in u)
+                        for k0, v0 in u.items():
+                            if v0 is None and any(e[0] == eb(k0) for e in raw_after):
+                                problems.append("key %r was to be removed but is still in the footer" % (k0,))
+                        read_checks(ctx, pq, pf2, raw_after, {**case, "failing_step": step}, "after update")
+                        if [e for e in raw_before if e[0] not in named] != [e for e in raw_after if e[0] not in named]:
+                            problems.append("entries not named by the update changed: %r -> %r" % (
+                                _trim_list([e for e in raw_before if e[0] not in named]), _trim_list([e for e in raw_after if e[0] not in named])))
+                        if not (pf2.fmd.schema == schema0):
+                            problems.append("schema changed")
+                        if not (pf2.fmd.row_groups == rgs0):
+                            problems.append("row groups changed")
+                        df2 = ParquetFile(root if is_md else path).to_pandas()
+                        if not df2.equals(df0):
+                            problems.append("data read back differs")
+                    except Exception as e:      # noqa
+                        problems.append("file unreadable after update: %s: %s" % (type(e).__name__, e))
                 if problems:
-                    ctx.fail({"component": "update_file_custom_metadata", "op": "refused-update", "file_kind": kind, "what": which},
-                             {**case, "failing_step": step}, "; ".join(problems))
+                    ctx.fail(cls, {**case, "failing_step": step, "before_hex_tail": before[-64:].hex(), "after_hex_tail": after[-64:].hex()},
+                             "; ".join(problems))
                     break
-                continue
-            # model inputs: where the footer is, and what the new footer bytes are (library's own serialiser)
-            if is_md:
-                loc = 4
-            else:
-                size = int.from_bytes(before[-8:-4], "little")
-                loc = len(before) - 8 - size
-            fmd = from_buffer(before[loc:], "FileMetaData")
-            update_custom_metadata(fmd, dict(u))
-            new_footer = bytes(fmd.to_bytes())
-            old_footer_len = len(before) - 8 - loc
-            delta = len(new_footer) - old_footer_len
-            deltas_seen.add(delta)
-            ctx.count("footer_delta_class", "0" if delta == 0 else ("-1..-7" if -8 < delta < 0 else ("<=-8" if delta <= -8 else ("+1..+7" if delta < 8 else ">=8"))))
-            ctx.count("file_kind", kind)
-            case["updates"].append([[repr(k), None if v is None else len(v)] for k, v in u.items()] + [{"footer_delta": delta}])
-            case["replay_data"]["updates"].append(enc_dict(u))
-            err = None
-            try:
-                update_file_custom_metadata(path, dict(u))
-            except Exception as e:           # noqa
-                err = "%s: %s" % (type(e).__name__, e)
-            after = open(path, "rb").read()
-            m_loc = pq.call("footer_loc", is_md, before)
-            m_after = pq.call("rewrite_footer", 1, before, loc, new_footer)
-            cc = {"kind": kind, "step": step, "delta": delta, "before_len": len(before), "loc": loc,
-                  "update": case["updates"][-1]}
-            ctx.correspondence("footer_loc ~ where update_file_custom_metadata finds the footer", cc, m_loc, [loc])
-            ctx.correspondence("rewrite_footer(truncate) ~ bytes left by update_file_custom_metadata", cc,
-                               sha_len(m_after), sha_len(after))
-            # ---- the property itself on this step
-            cls = {"component": "update_file_custom_metadata", "op": "update_kv", "file_kind": kind,
-                   "footer_delta": delta}
-            want = spec_update(cur, u)
-            problems = []
-            if err:
-                problems.append("update raised " + err)
-            if after[:loc] != before[:loc]:
-                problems.append("bytes before the footer changed")
-            if after[-4:] != b"PAR1":
-                problems.append("file does not end with the magic")
-            else:
-                sz = int.from_bytes(after[-8:-4], "little")
-                if (4 if is_md else len(after) - 8 - sz) != loc:
-                    problems.append("footer length field %d does not lead back to the footer start (file %d bytes, footer at %d)" % (sz, len(after), loc))
-            if not problems:
-                try:
-                    pf2 = ParquetFile(path)
-                    got = {eb(k): eb(v) for k, v in pf2.key_value_metadata.items()}
-                    if got != want:
-                        problems.append("key-values after update %r, expected %r" % (_trim(got), _trim(want)))
-                    named = set(eb(k) for k in u)
-                    raw_after = kv_of(pf2.fmd)
-                    if [e for e in raw_before if e[0] not in named] != [e for e in raw_after if e[0] not in named]:
-                        problems.append("entries not named by the update changed: %r -> %r" % (
-                            _trim_list([e for e in raw_before if e[0] not in named]), _trim_list([e for e in raw_after if e[0] not in named])))
-                    if not (pf2.fmd.schema == schema0):
-                        problems.append("schema changed")
-                    if not (pf2.fmd.row_groups == rgs0):
-                        problems.append("row groups changed")
-                    df2 = ParquetFile(root if is_md else path).to_pandas()
-                    if not df2.equals(df0):
-                        problems.append("data read back differs")
-                except Exception as e:      # noqa
-                    problems.append("file unreadable after update: %s: %s" % (type(e).__name__, e))
-            if problems:
-                ctx.fail(cls, {**case, "failing_step": step, "before_hex_tail": before[-64:].hex(), "after_hex_tail": after[-64:].hex()},
-                         "; ".join(problems))
-                break
-            cur = want
-        ctx.case(case, trivial=trivial_hist)
+                cur = want
+            ctx.case(case, trivial=trivial_hist)
+        except Exception as e:      # noqa  (a legal history must not raise anywhere: reported with the concrete history)
+            import traceback
+            ctx.fail({"component": "history", "op": "raised", "what": type(e).__name__}, case,
+                     "a legal history raised %s: %s\n%s" % (type(e).__name__, e, traceback.format_exc()[-1200:]))
     pq.close()
     ctx.extra["footer_deltas_seen"] = sorted(deltas_seen)
     small = set(range(-8, 9))
     ctx.extra["small_deltas_missing"] = sorted(small - deltas_seen)
+
+
+def strict_view_ok(pf, raw):
+    keys = [k for k, _ in raw]
+    rep_keys = set(py_canon(k) for k in keys if keys.count(k) > 1)
+    want = {}
+    for k, v in raw:
+        want[py_canon(k)] = py_canon(v)
+    want = {k: v for k, v in want.items() if k not in rep_keys}
+    try:
+        return view_of(want) == view_of({k: v for k, v in pf.key_value_metadata.items() if k not in rep_keys})
+    except Exception as e:      # noqa
+        print("reading key_value_metadata raised %s: %s" % (type(e).__name__, e))
+        return False
 
 
 def enc_dict(d):
@@ -377,7 +578,7 @@ def _maybe_str(b):
 
 
 def _trim(d):
-    return {k[:20]: (v[:20], len(v)) for k, v in d.items()}
+    return {k[:20]: (None if v is None else (v[:20], len(v))) for k, v in d.items()}
 
 
 def replay(rep):
@@ -392,6 +593,22 @@ def replay(rep):
         print(json.dumps(rep, indent=1)[:6000])
         return 1
     rd = rep["case"].get("replay_data")
+    if rd is None and "old" in rep["case"] and "update" in rep["case"]:
+        # a direct call of util.update_custom_metadata
+        from fastparquet import parquet_thrift
+        from fastparquet.util import update_custom_metadata
+        c = rep["case"]
+        old = [(bytes.fromhex(k), bytes.fromhex(v)) for k, v in c["old"]]
+        u = {bytes.fromhex(k): (None if v is None else bytes.fromhex(v)) for k, v in c["update"]}
+        fmd = parquet_thrift.FileMetaData(key_value_metadata=[parquet_thrift.KeyValue(key=k, value=v) for k, v in old])
+        try:
+            update_custom_metadata(fmd, u)
+        except Exception as e:      # noqa
+            print("update_custom_metadata(%r, %r) raised %s: %s" % (old, u, type(e).__name__, e))
+            return 1
+        got, want = dict(kv_of(fmd)), spec_update(dict(old), u)
+        print("update_custom_metadata(%r, %r) -> %r; dict-update semantics: %r" % (old, u, kv_of(fmd), want))
+        return 0 if (got == want and len(kv_of(fmd)) == len(got)) else 1
     if rd is None:
         print(json.dumps(rep, indent=1)[:6000])
         return 1
@@ -408,10 +625,17 @@ def replay(rep):
         else:
             path = root = os.path.join(tmp, "f.parquet")
             write(path, df, custom_metadata=dict(d0) or None, row_group_offsets=rgo)
-        if rd.get("dup"):
-            inject_duplicates(path, rd["kind"] == "_metadata", None, fixed=rd["dup"])
-        cur = {eb(k): eb(v) for k, v in ParquetFile(path).key_value_metadata.items()}
+        pq = C.Pqref()
+        if rd.get("foreign"):
+            inject_foreign(pq, path, rd["foreign"])
+        pq.close()
+        pf0 = ParquetFile(path)
+        cur = dict(kv_of(pf0.fmd))
+        df = ParquetFile(root).to_pandas()
         bad = 0
+        if not strict_view_ok(pf0, kv_of(pf0.fmd)):
+            print("before any update: key_value_metadata does not return the stored entries with their types: %r" % (view_of(pf0.key_value_metadata),))
+            return 1
         for i, ul in enumerate(rd["updates"]):
             before = open(path, "rb").read()
             raw_before = kv_of(ParquetFile(path).fmd)
@@ -436,11 +660,12 @@ def replay(rep):
             after = open(path, "rb").read()
             try:
                 pf2 = ParquetFile(path)
-                got = {eb(k): eb(v) for k, v in pf2.key_value_metadata.items()}
                 raw_after = kv_of(pf2.fmd)
+                got = dict(raw_after)
                 keep = [e for e in raw_before if e[0] not in named] == [e for e in raw_after if e[0] not in named]
-                ok = got == want and keep and ParquetFile(root).to_pandas().equals(df) and after[-4:] == b"PAR1"
-                msg = "kv equal: %s, untouched entries kept: %s" % (got == want, keep)
+                strict = strict_view_ok(pf2, raw_after)
+                ok = got == want and keep and strict and ParquetFile(root).to_pandas().equals(df) and after[-4:] == b"PAR1"
+                msg = "kv equal: %s, untouched entries kept: %s, read with the right types: %s" % (got == want, keep, strict)
             except Exception as e:      # noqa
                 ok, msg = False, "unreadable: %s: %s" % (type(e).__name__, e)
             print("step %d: file %d -> %d bytes, tail %s : %s" % (i, len(before), len(after), after[-8:].hex(), "ok" if ok else "PROPERTY FAILS (" + msg + ")"))
